@@ -65,11 +65,19 @@ func (c *decoratorController) callHook(
 		}
 	}
 
+	// A hook may return null entries in the list; drop them here so that nothing
+	// downstream has to deal with nil attachments.
+	attachments := make([]*unstructured.Unstructured, 0, len(response.Attachments))
 	for _, child := range response.Attachments {
-		if child != nil && child.GetNamespace() == "" {
+		if child == nil {
+			continue
+		}
+		if child.GetNamespace() == "" {
 			child.SetNamespace(parent.GetNamespace())
 		}
+		attachments = append(attachments, child)
 	}
+	response.Attachments = attachments
 
 	return &response, nil
 }
